@@ -203,6 +203,30 @@ def check(ctx):
     s = re.sub(r"[\s()]", "", src(seq))
     ctx.decide("atom_dict[cid][rid+offset][atom]foratom,offsetinatoms_and_offsets" in s and "rid+offsetinatom_dict[cid]" in s and "atoms_and_offsets=listzipatom_names,residue_offsets" in s, "C07-R4", seq, DIH, "_atom_sequence",
                "atoms looked up in residue rid+offset of the same chain", "", "atom lookup by residue offset within the chain changed")
+    # the lookup tree is per chain and per residue: each level's dict is created inside the loop that fills it
+    cad = ctx.py.func(DIH, "_construct_atom_dict")
+
+    def created_in(loop, name):
+        """`name` is bound to a new dict (literal, dict(), comprehension) by a statement directly in the body of `loop`"""
+        for st in loop.body:
+            if isinstance(st, ast.Assign) and dotted(st.targets[0]) == name and (isinstance(st.value, (ast.Dict, ast.DictComp)) or (isinstance(st.value, ast.Call) and call_name(st.value) == "dict")):
+                return True
+        return False
+    for lp_iter, key in (("topology.chains", "chain.index"), ("chain.residues", "residue.index")):
+        loops = [n for n in ast.walk(cad) if isinstance(n, ast.For) and src(n.iter) == lp_iter]
+        ok = False
+        why = "loop over %s not found" % lp_iter
+        if loops:
+            lp = loops[0]
+            stores = [st for st in lp.body if isinstance(st, ast.Assign) and isinstance(st.targets[0], ast.Subscript) and src(st.targets[0].slice) == key]
+            if stores:
+                v = stores[0].value
+                ok = isinstance(v, (ast.Dict, ast.DictComp)) or (isinstance(v, ast.Name) and created_in(lp, v.id))
+                why = "the dict stored under %s is `%s`, created outside the loop over %s: all entries share one dict" % (key, src(v), lp_iter)
+            else:
+                why = "no store under %s in the loop over %s" % (key, lp_iter)
+        ctx.decide(ok, "C07-R4", loops[0] if loops else cad, DIH, "_construct_atom_dict", "a new dict per %s" % key.split(".")[0], "",
+                   why + " - residues of different chains are then looked up in each other's chain and torsions are reported across chain boundaries")
     for nm, tab in (("indices_phi", "PHI_ATOMS"), ("indices_psi", "PSI_ATOMS"), ("indices_omega", "OMEGA_ATOMS"), ("indices_chi1", "CHI1_ATOMS"), ("indices_chi2", "CHI2_ATOMS"),
                     ("indices_chi3", "CHI3_ATOMS"), ("indices_chi4", "CHI4_ATOMS"), ("indices_chi5", "CHI5_ATOMS")):
         f = ctx.py.func(DIH, nm)
